@@ -42,6 +42,14 @@ PeachDecl == /\ Is("PeachDecl") /\ Adv /\ Quiescent /\ fpc \in {"test", "returne
              /\ UNCHANGED <<cancelled, ivars>>
 \* a worker whose callback never logged CbStart (rejected closure): the smallest such worker releases
 Unstarted == {i \in In : wpc[i] = "done" /\ nstart[i] = 0}
+\* the callback returned: WEnd; when `broken` is already set, WFlag (which then only records the exception)
+\* commutes with everything else and is taken at once
+CbEndEv(i, r) == IF broken /\ r # "ok"
+                 THEN /\ wpc[i] = "run" /\ (r = cfg.res[i] \/ (r = "intr" /\ cancelled))
+                      /\ ended' = [ended EXCEPT ![i] = r] /\ wpc' = [wpc EXCEPT ![i] = "done"]
+                      /\ errs' = (IF r # "break" THEN errs \cup {i} ELSE errs)
+                      /\ UNCHANGED <<cfg, fpc, cur, permit, sem, pos, nstart, broken, cancelled, out, ret>>
+                 ELSE WEnd(i, r)
 Logged ==
   \/ Is("PEnter") /\ Adv /\ PEnterObs(T.g, T.bg)
   \/ Is("PStart") /\ Adv /\ PStartObs(T.g)
@@ -51,23 +59,38 @@ Logged ==
   \/ Is("AcqRet") /\ Adv /\ FAcqRet /\ UNCHANGED ivars
   \/ Is("Spawn") /\ Adv /\ FSpawn /\ UNCHANGED ivars
   \/ Is("CbStart") /\ Adv /\ T.i \in In /\ WStart(T.i) /\ UNCHANGED ivars
-  \/ Is("CbEnd") /\ Adv /\ T.i \in In /\ WEnd(T.i, T.res) /\ UNCHANGED ivars
+  \/ Is("CbEnd") /\ Adv /\ T.i \in In /\ CbEndEv(T.i, T.res) /\ UNCHANGED ivars
   \/ Is("Release") /\ Adv /\ T.i \in In /\ WRelease(T.i) /\ UNCHANGED ivars
   \/ Is("Release") /\ Adv /\ T.i = -1 /\ Unstarted # {} /\ WRelease(CHOOSE i \in Unstarted : \A j \in Unstarted : i <= j) /\ UNCHANGED ivars
   \/ Is("CancelStart") /\ l' = l + 1 /\ cst = "no" /\ cst' = "started" /\ UNCHANGED allvars
   \/ Is("CancelEnd") /\ l' = l + 1 /\ cst = "done" /\ cst' = "over" /\ UNCHANGED allvars
-  \/ Is("EvalReturn") /\ Adv /\ EvalReturn(T.exc)
+  \/ Is("EvalReturn") /\ Adv /\ EvalReturnObs(T.exc)
   \/ Is("Settled") /\ Adv /\ Settled(T.k)
+\* Unlogged steps are offered only where they can matter (this does not remove behaviours, it removes
+\* equivalent interleavings):
+\*   WRejected(i) when the next event needs it: a Release of an unstarted worker, or the end of the call
+\*     (then in index order: every spawned worker has to go);
+\*   FinalCheck just before the events between which it must lie (EvalReturn, or the cancellation);
+\*   FReturn is not needed by any event or invariant here and is left out.
+Spawned == {i \in In : wpc[i] = "spawned"}
+NeedRejected(i) == \/ Is("Release") /\ T.i = -1 /\ Unstarted = {} /\ \A j \in In : wpc[j] # "flag"
+                   \/ (Is("EvalReturn") \/ Is("PeachDecl")) /\ \A j \in Spawned : i <= j
 Unlogged ==
   \/ Internal /\ UNCHANGED ivars /\ Stay
-  \/ (\E i \in In : WRejected(i)) /\ Stay
-  \/ FReturn(DesignRet) /\ UNCHANGED ivars /\ Stay
-  \/ FinalCheck /\ Stay
+  \/ (\E i \in Spawned : NeedRejected(i) /\ WRejected(i)) /\ Stay
+  \/ (Is("EvalReturn") \/ Is("CancelStart") \/ Is("CancelEnd")) /\ FinalCheck /\ Stay
   \/ cst = "started" /\ Cancel /\ cst' = "done" /\ UNCHANGED <<l, ivars>>
 TNext == Begin \/ PeachDecl \/ Logged \/ Unlogged
 TSpec == TInit /\ [][TNext]_tvars
 
 HW == TLCSet(1, IF TLCGet(1) > l THEN TLCGet(1) ELSE l)
+\* Acceptance is EXISTENTIAL: the trace is accepted iff some placement of the unlogged steps explains all
+\* of it with every invariant holding in every state on the way.  Hence the invariants prune (CONSTRAINT
+\* Live in TraceInterrupt.cfg); a state reached by an unlucky placement (e.g. FAcquireCancelled chosen where
+\* the real Acquire had succeeded) is not a verdict.  Only when no explanation exists is the trace judged
+\* again with TraceInterruptName.cfg, where the same invariants are INVARIANTs, to name what is violated.
+InvOK == NoStartAfterCancel /\ ReturnInterrupted /\ AllGoroutinesDone /\ BoundRespected /\ SemNonNegative /\ AtMostOnce
+Live == InvOK /\ HW
 Accepted == PrintT(<<"HW", TLCGet(1)>>) /\ TLCGet(1) = Len(Trace) + 1
 ASSUME TLCSet(1, 0)
 =============================================================================
